@@ -54,7 +54,7 @@ def run(ctx):
     required = ["strict_refuses", "strict_refuses_with_reason", "strict_decision_table", "strict_running", "lenient_accepts", "moved_keys_refused",
                 "cli_secrets_refused", "outbound_https_only", "lenient_follows_http", "tls_off_network_disabled", "refusals_independent",
                 "fact_default_strict", "fact_parse_public_url", "fact_reserved_lists", "fact_moved_keys", "fact_secret_flag_rule",
-                "fact_engine_conditions", "fact_http_client", "fact_iam_strictmode", "fact_outbound_inventory", "fact_iam_call_sites", "fact_misc_sites", "fact_filter_and_validator_comparisons", "remote_contexts_exact", "remote_context_prefix_witness", "dummy_any_spelling", "fact_redirect_check_reads_global", "early_client_strict", "iam_endpoints_strict", "iam_endpoint_witness", "fact_engine_order", "fact_secret_flags", "fact_flags_resolved", "fact_redacted_keys"]
+                "fact_engine_conditions", "fact_http_client", "fact_iam_strictmode", "fact_client_strict_unconditional", "fact_outbound_inventory", "fact_iam_call_sites", "fact_misc_sites", "fact_filter_and_validator_comparisons", "remote_contexts_exact", "remote_context_prefix_witness", "dummy_any_spelling", "fact_redirect_check_reads_global", "early_client_strict", "iam_endpoints_strict", "iam_endpoint_witness", "fact_engine_order", "fact_secret_flags", "fact_flags_resolved", "fact_redacted_keys"]
     for r in required:
         if not any(t.endswith("Props." + r) for t in thms):
             ctx.oblige("thm-present:" + r, False, "theorem missing or its module does not build")
